@@ -26,6 +26,8 @@ LEVEL_TEXT = (
     "response_coefficients): sample tables with a parameter column, an initial-value column, both, or a parameter that "
     "an initial assignment reads x default or supplied state x row labels in and out of order x 1-3 workers; every "
     "row's block must equal the analytic coefficients at that row's parameters and state, under that row's label."
+    " Added: a closed pair whose steady state depends on the start values in force, a parameter that acts "
+    "through a computed stoichiometric coefficient only, mappings with reversed key order. "
 )
 LEVEL_NOTE = "trusted: the analytic steady state of the power-law chain/branch; finite-difference tolerance constants as stated"
 RULE = (
